@@ -10,6 +10,10 @@ import Driver.C03
 import Driver.C13
 import Driver.C06
 import Driver.C14
+import Driver.C10
+import Driver.C18
+import Driver.C16
+import Driver.C17
 open Lean
 
 def dispatch (prop : String) (j : Json) : Except String Json :=
@@ -26,6 +30,10 @@ def dispatch (prop : String) (j : Json) : Except String Json :=
   | "C13" => Driver.C13.handle j
   | "C06" => Driver.C06.handle j
   | "C14" => Driver.C14.handle j
+  | "C10" => Driver.C10.handle j
+  | "C18" => Driver.C18.handle j
+  | "C16" => Driver.C16.handle j
+  | "C17" => Driver.C17.handle j
   | _ => .error s!"unknown property {prop}"
 
 partial def loop (h : IO.FS.Stream) (out : IO.FS.Stream) : IO Unit := do
